@@ -102,6 +102,16 @@ Proof.
   intros H; injection H as <-. split; [apply fs_get_set_same|intros; now apply fs_get_set_other].
 Qed.
 
+(* the oracle used by the correspondence is the model's wrapper *)
+Theorem C07_save_gate_doc : forall l ds ok content f p,
+  save_gate l ds ok content f p = save_gate_doc (eS l) (map eE ds) ok content f p.
+Proof.
+  intros. unfold save_gate, save_gate_doc.
+  assert (H : existsb (fun e => fails_doc e (eS l)) (map eE ds) = existsb (fun e => fails e l) ds).
+  { induction ds as [|d ds IH]; simpl; [reflexivity|]. now rewrite IH, C07_fails_table. }
+  rewrite H. reflexivity.
+Qed.
+
 (* non-vacuity: a concrete diagnostic list accepted at Loose, rejected at Medium *)
 Example C07_witness :
   gate Loose tt [GeneralWarning; LooseWarning] = Accepted tt [EGeneralW; ELooseW] /\
@@ -117,3 +127,4 @@ Print Assumptions C07_accept_monotone.
 Print Assumptions C07_save_refused_unchanged.
 Print Assumptions C07_save_refused_iff.
 Print Assumptions C07_save_ok_frame.
+Print Assumptions C07_save_gate_doc.
